@@ -2346,6 +2346,173 @@ run_limit(struct actx *x, const struct fdesc *f, struct call *c, int li, const s
                           err, signalled);
 }
 
+/* Exported functions that are not reached through a manager field: the per-architecture legacy entry points
+ * (submit_job_sse() ... dispatch to the type the manager was initialised with) and a few utility exports. A short
+ * verified history is driven through them (C18 via the trampoline, C09 via the reference comparison). */
+static uint64_t n_legacy_jobs;
+static void
+legacy_done(struct mmgr *mm, IMB_JOB *job, void *arg)
+{
+        (void) arg;
+        item_check(job->user_data, job, "C09", mm, "legacy arch entry points");
+        n_legacy_jobs++;
+}
+static void
+legacy_sweep(void)
+{
+        static const struct {
+                int arch;
+                void *get_next, *submit, *submit_nc, *flush, *get_completed, *qsize;
+                const char *sfx;
+        } L[] = {
+                { 0, (void *) get_next_job_sse, (void *) submit_job_sse, (void *) submit_job_nocheck_sse, (void *) flush_job_sse,
+                  (void *) get_completed_job_sse, (void *) queue_size_sse, "sse" },
+                { 1, (void *) get_next_job_avx2, (void *) submit_job_avx2, (void *) submit_job_nocheck_avx2, (void *) flush_job_avx2,
+                  (void *) get_completed_job_avx2, (void *) queue_size_avx2, "avx2" },
+                { 2, (void *) get_next_job_avx512, (void *) submit_job_avx512, (void *) submit_job_nocheck_avx512, (void *) flush_job_avx512,
+                  (void *) get_completed_job_avx512, (void *) queue_size_avx512, "avx512" },
+        };
+        static struct item *it[24];
+        char nm[6][40];
+        for (int c = 0; c < NCFG; c++) {
+                if (g_cfgs[c].arch > 2 || g_cfg_variant[c] < 0 || (c % g_opt.nshards) != g_opt.shard % NCFG)
+                        continue;
+                struct mmgr *mm = mm_new(c);
+                if (!mm)
+                        continue;
+                const int a = g_cfgs[c].arch;
+                struct rng r;
+                rng_seed(&r, g_opt.seed * 31 + (uint64_t) c);
+                snprintf(nm[0], 40, "get_next_job_%s", L[a].sfx);
+                snprintf(nm[1], 40, "submit_job_%s", L[a].sfx);
+                snprintf(nm[2], 40, "submit_job_nocheck_%s", L[a].sfx);
+                snprintf(nm[3], 40, "flush_job_%s", L[a].sfx);
+                snprintf(nm[4], 40, "get_completed_job_%s", L[a].sfx);
+                snprintf(nm[5], 40, "queue_size_%s", L[a].sfx);
+                g_job_done = legacy_done;
+                uint64_t before = n_legacy_jobs;
+                int n = 24;
+                for (int i = 0; i < n; i++) {
+                        struct genopt g;
+                        const struct suite *cs, *hs;
+                        int dir;
+                        genopt_default(&g);
+                        g.slot = i % 8;
+                        g.pl = PL_PLAIN;
+                        item_pick_ooo(&r, &cs, &hs, &dir);
+                        g.dir = dir;
+                        if (!it[i])
+                                it[i] = item_new();
+                        /* slots are recycled: only 8 jobs in flight at a time */
+                        if (i >= 8) {
+                                IMB_JOB *fj;
+                                while ((fj = (IMB_JOB *) mcall(nm[3], L[a].flush, 1, (uint64_t) mm->m)) != NULL)
+                                        legacy_done(mm, fj, NULL);
+                        }
+                        item_gen(it[i], cs, hs, &r, &g, mm);
+                        item_expect(it[i]);
+                        IMB_JOB *j = (IMB_JOB *) mcall(nm[0], L[a].get_next, 1, (uint64_t) mm->m);
+                        item_fill_job(it[i], j);
+                        IMB_JOB *rj = (IMB_JOB *) mcall(nm[(i & 1) ? 2 : 1], (i & 1) ? L[a].submit_nc : L[a].submit, 1, (uint64_t) mm->m);
+                        while (rj) {
+                                legacy_done(mm, rj, NULL);
+                                rj = (IMB_JOB *) mcall(nm[4], L[a].get_completed, 1, (uint64_t) mm->m);
+                        }
+                        mcall(nm[5], L[a].qsize, 1, (uint64_t) mm->m);
+                }
+                IMB_JOB *fj;
+                while ((fj = (IMB_JOB *) mcall(nm[3], L[a].flush, 1, (uint64_t) mm->m)) != NULL)
+                        legacy_done(mm, fj, NULL);
+                if (n_legacy_jobs - before != (uint64_t) n) {
+                        char key[160];
+                        snprintf(key, sizeof key, "C05|%s|legacy-api|lost-or-duplicate", variant_name(mm->variant));
+                        ev_violation("C05", key, "legacy per-architecture entry points did not hand back every job exactly once", NULL);
+                }
+                g_job_done = NULL;
+                /* utility exports */
+                const char *s1 = NULL, *s2 = NULL;
+                unsigned bs = 0;
+                imb_self_test_cb_t cb = NULL;
+                void *cba = NULL;
+                uint8_t tmp[100];
+                memset(tmp, 0x5a, sizeof tmp);
+                mcall("imb_get_arch_type_string", (void *) imb_get_arch_type_string, 3, (uint64_t) mm->m, (uint64_t) &s1, (uint64_t) &s2);
+                mcall("imb_hash_burst_get_size", (void *) imb_hash_burst_get_size, 3, (uint64_t) mm->m, (uint64_t) IMB_AUTH_HMAC_SHA_1, (uint64_t) &bs);
+                mcall("imb_cipher_burst_get_size", (void *) imb_cipher_burst_get_size, 3, (uint64_t) mm->m, (uint64_t) IMB_CIPHER_CBC, (uint64_t) &bs);
+                mcall("imb_aead_burst_get_size", (void *) imb_aead_burst_get_size, 3, (uint64_t) mm->m, (uint64_t) IMB_CIPHER_CCM, (uint64_t) &bs);
+                mcall("imb_self_test_get_cb", (void *) imb_self_test_get_cb, 3, (uint64_t) mm->m, (uint64_t) &cb, (uint64_t) &cba);
+                mcall("imb_self_test_set_cb", (void *) imb_self_test_set_cb, 3, (uint64_t) mm->m, (uint64_t) cb, (uint64_t) cba);
+                mcall("imb_clear_mem", (void *) imb_clear_mem, 2, (uint64_t) (tmp + 3), (uint64_t) 77);
+                for (int i = 0; i < 100; i++)
+                        if (tmp[i] != ((i >= 3 && i < 80) ? 0 : 0x5a)) {
+                                ev_violation("C07", "C07|direct|imb_clear_mem|range", "imb_clear_mem did not clear exactly the given range", NULL);
+                                break;
+                        }
+                /* imb_set_pointers_mb_mgr + init_mb_mgr_auto on caller memory */
+                void *blk = NULL;
+                if (posix_memalign(&blk, 64, imb_get_mb_mgr_size()) == 0) {
+                        IMB_ARCH ar;
+                        IMB_MGR *m2 = (IMB_MGR *) mcall("imb_set_pointers_mb_mgr", (void *) imb_set_pointers_mb_mgr, 3, (uint64_t) blk,
+                                                        g_cfgs[c].flags, (uint64_t) 1);
+                        if (m2)
+                                mcall("init_mb_mgr_auto", (void *) init_mb_mgr_auto, 2, (uint64_t) m2, (uint64_t) &ar);
+                        free(blk);
+                }
+                mm_free(mm);
+        }
+        cov_count("legacy_api_jobs", n_legacy_jobs);
+        /* encrypt-only key expansion exports (not reachable through IMB_MGR) and the AVX XCBC key expansion */
+        if (g_opt.shard == 0) {
+                static const struct {
+                        const char *name;
+                        void *fn;
+                        int kl;
+                } K[] = {
+                        { "aes_keyexp_128_enc_sse", (void *) aes_keyexp_128_enc_sse, 16 },       { "aes_keyexp_192_enc_sse", (void *) aes_keyexp_192_enc_sse, 24 },
+                        { "aes_keyexp_256_enc_sse", (void *) aes_keyexp_256_enc_sse, 32 },       { "aes_keyexp_128_enc_avx", (void *) aes_keyexp_128_enc_avx, 16 },
+                        { "aes_keyexp_192_enc_avx", (void *) aes_keyexp_192_enc_avx, 24 },       { "aes_keyexp_256_enc_avx", (void *) aes_keyexp_256_enc_avx, 32 },
+                        { "aes_keyexp_128_enc_avx2", (void *) aes_keyexp_128_enc_avx2, 16 },     { "aes_keyexp_192_enc_avx2", (void *) aes_keyexp_192_enc_avx2, 24 },
+                        { "aes_keyexp_256_enc_avx2", (void *) aes_keyexp_256_enc_avx2, 32 },     { "aes_keyexp_128_enc_avx512", (void *) aes_keyexp_128_enc_avx512, 16 },
+                        { "aes_keyexp_192_enc_avx512", (void *) aes_keyexp_192_enc_avx512, 24 }, { "aes_keyexp_256_enc_avx512", (void *) aes_keyexp_256_enc_avx512, 32 },
+                };
+                struct rng r;
+                rng_seed(&r, g_opt.seed + 555);
+                for (unsigned i = 0; i < ARRAY_SZ(K); i++)
+                        for (int rep = 0; rep < 8; rep++) {
+                                size_t sz = 16 * (size_t) (K[i].kl / 4 + 7);
+                                uint8_t exp[240];
+                                guard_reset_slot(0);
+                                uint8_t *key = guard_alloc(0, "key", (size_t) K[i].kl, 1, (rep & 1) ? PL_START : PL_END);
+                                uint8_t *out = guard_alloc(0, "enckey", sz, 16, (rep & 1) ? PL_START : PL_END);
+                                rng_bytes(&r, key, (size_t) K[i].kl);
+                                ref_aes_expand_enc(key, K[i].kl, exp);
+                                mcall(K[i].name, K[i].fn, 2, (uint64_t) key, (uint64_t) out);
+                                if (memcmp(out, exp, sz)) {
+                                        char key_[160];
+                                        snprintf(key_, sizeof key_, "C11|direct|%s|output-mismatch", K[i].name);
+                                        ev_violation("C11", key_, "encrypt-only key expansion differs from the reference schedule", NULL);
+                                }
+                                guard_check_slot(0, K[i].name);
+                                cov_hit("abi_fn", "export|%s|valid", K[i].name);
+                        }
+                for (int rep = 0; rep < 8; rep++) {
+                        uint8_t e1[16], e2[16], e3[16], k1exp[176];
+                        guard_reset_slot(0);
+                        uint8_t *key = guard_alloc(0, "key", 16, 1, (rep & 1) ? PL_START : PL_END);
+                        uint8_t *o1 = guard_alloc(0, "k1exp", 176, 16, PL_END);
+                        uint8_t *o2 = guard_alloc(0, "k2", 16, 1, PL_END);
+                        uint8_t *o3 = guard_alloc(0, "k3", 16, 1, PL_END);
+                        rng_bytes(&r, key, 16);
+                        ref_xcbc_keys(key, e1, e2, e3);
+                        ref_aes_expand_enc(e1, 16, k1exp);
+                        mcall("aes_xcbc_expand_key_avx", (void *) aes_xcbc_expand_key_avx, 4, (uint64_t) key, (uint64_t) o1, (uint64_t) o2, (uint64_t) o3);
+                        if (memcmp(o1, k1exp, 176) || memcmp(o2, e2, 16) || memcmp(o3, e3, 16))
+                                ev_violation("C11", "C11|direct|aes_xcbc_expand_key_avx|output-mismatch", "XCBC key expansion differs from the reference", NULL);
+                        guard_check_slot(0, "aes_xcbc_expand_key_avx");
+                }
+        }
+}
+
 int
 eng_abi(void)
 {
@@ -2438,6 +2605,8 @@ eng_abi(void)
         cov_count("direct_outputs_verified_by_reference", n_ref);
         cov_count("direct_outputs_verified_by_nversion", n_nver);
         cov_count("direct_functions", (uint64_t) NFN);
+        if (!g_opt.arg1)
+                legacy_sweep();
         free(nver_tab);
         free(pool);
         return 0;
